@@ -192,11 +192,11 @@ MEMGET_STUBS = ENV_STUBS + [
     "sort_model: <[usize]>::sort_unstable is an exchange sort for <= 4 elements (std's quicksort does not finish on a vector of symbolic length)",
     "c_pso: process_stack_ops is a recorder (as in EMIT)"]
 for i in _gi.memget_instances():
-    H(i["name"], "memget.rs", "MEMO-GET", ["C02", "C17", "C04", "C09"], i["tier"],
+    H(i["name"], "memget.rs", "MEMO-GET", ["C02", "C17", "C03", "C04", "C09"], i["tier"],
       "%s on a memo of %d entries (keys 0..%d), mutator %s at symbolic rate in [0,1], every protocol that has the opcode, fuzzer bytes 0..20, "
       "every iteration order of the table" % (i["opname"], i["n"], i["n"] - 1, _gi.MUTNAME[i["mutk"]]),
       stubs=MEMGET_STUBS, funcs=["Generator::emit_and_process(%s)" % i["opname"], "Generator::mutate_memo_index"], cost=8,
-      thorough_only_for=["C04", "C09", "C17"] if i["opname"] != "BINGET" else ["C04", "C09"])
+      thorough_only_for=["C04", "C09", "C17", "C03"] if i["opname"] != "BINGET" else ["C04", "C09"])
     UNITS[-1]["variant"] = "modelmap"
 for n, op, k in [("memget_order_binget_n2", "BINGET", 2), ("memget_order_long_binget_n3", "LONG_BINGET", 3), ("memget_order_get_n2", "GET", 2)]:
     H(n, "memget.rs", "MEMO-GET(order)", ["C07", "C02"], "quick" if op == "BINGET" else "thorough",
